@@ -19,6 +19,13 @@ NA = {
 }
 
 CHECKS = {
+    "C13": dict(
+        category="exploration",
+        text="The permutation drawn by PermutationReciprocalTransformer / TransformedTargetClassifier2('permute') is environment entropy (numpy.random.permutation, no seed on that path): the entropy seam forces it to every one of the k! permutations in turn for k <= 4 (quick) / 5 (thorough) -- exhaustive over permutations for those sizes -- and draws adversarially for 6 <= k <= 9, over sampled label sets (int, arbitrary int, str, float with NaN), data and exactly equivariant learners; oracles: transformer round trip, original labels, agreement with the plain classifier where its decision is not a tie, classes_[j] labels column j. The six function names are checked with recording peers; that part has no schedule/fault/entropy dimension and is reported separately.",
+        design_ref="DESIGN.md §4 C13",
+        note="Trusted: equivariance of 1-NN / GaussianNB / seeded trees away from ties; closest=True path cannot run under numpy 2; integer random_state is an input and only sampled.",
+        technique="deterministic simulation: owned entropy seam enumerating the drawn permutation, recording peers, reference = plain classifier",
+    ),
     "C01": dict(
         category="exploration",
         text="Seeded search over histories of protocol calls (get_params deep/shallow, set_params of an advertised key to a different value, transplant of another instance's deep parameters, clone, replace-by-clone, fit) on two or three live instances of each of 29 exported classes, against a reference model (flat parameter dict per instance with a frame condition, aliasing through shared nested objects tracked), plus behavioural equality of transplanted instances by fitting clones. No fault, schedule or entropy dimension exists for this property; the simulator contributes generated histories, the uninitialised-memory seam, minimisation and replay.",
